@@ -226,7 +226,7 @@ ADDENDA = {
     "C04": " Also decided: every call of a halting Engine method in the command loop is preceded by the deactivation helper (a superseded search never gets a bestmove of its own; R16-supersede re-decided as R04-single); a go always halts what the engine still has registered before it launches.",
     "C05": " Also decided: the shape of HasInsufficientMaterial (piece sets of both colours, case split 2/3/4 and thresholds, the bishops' square colours told by a colour-complex mask - R05-dead, which exposed defect F18); that a forked board carries clock, counters and shared past (R05-fork); that the per-hash gate of the re-count is sound (C07's delta rule re-decided as R05-hashgate).",
     "C06": " IsCheckMate: 'not mate' is never decided for a side in check without consulting the legal moves.",
-    "C09": " Also decided: DecrementMateDistance and IncrementMateDistance are mutually inverse (R09-decr); the int8 mate distance never wraps around - the constructor maps every int8 into [-127,127], nothing else writes the field, and Negate/Increment/Decrement/MateDistance keep the range on every path (R09-range, defect F25). The order clauses are decided on |k| <= 126; at the saturated end |k| = 127 IncrementMateDistance is necessarily not injective.",
+    "C09": " Also decided: DecrementMateDistance and IncrementMateDistance are mutually inverse (R09-decr); the int8 mate distance never wraps around - the constructor maps every int8 into [-127,127], nothing else writes the field, and Negate/Increment/Decrement/MateDistance keep the range on every path (R09-range, defect F25). The order clauses are decided region-wise on |k| <= 126 and as constants for the neighbour pairs at the ends of the range, where the saturating increment collapses the order: listed as known finding F33.",
     "C10": " Also decided: the continuation test of the position arm compares the new line with the remembered one at a token boundary (R10-prefix, defect F20); a continuation must extend the remembered line by a move list (second obligation of R10-prefix, defect F31); Engine.Move's text match is exact on origin, destination and promotion (R19-move re-decided as R10-move).",
     "C08": " The result clause reads, as corrected after defect F23: a take-back restores the game result the board reported before the move, claimable draws included.",
     "C12": " Also decided: the mate/stalemate verdict (which writes the board's result) is produced only on paths where no move was pushed, and PopMove is the exact inverse of PushMove on everything the board reports, the game result included (R08-inverse re-decided; defect F23), so a halted search hands the board back as received.",
